@@ -4,7 +4,9 @@ go 1.26.8
 
 require (
 	github.com/go-logr/logr v1.2.3
+	github.com/google/uuid v1.3.0
 	github.com/klauspost/compress v1.16.7
+	github.com/mattn/go-sqlite3 v1.14.14
 	github.com/pckhoi/meow v0.0.0-20211009023351-e1fff1d3c870
 	github.com/wrgl/wrgl v0.0.0
 )
